@@ -336,6 +336,18 @@ def rule_r4(chk, prog):
     appliers = {}  # name -> list of (params, vararg, body calls+facts, facts)
     for st in ast.walk(lr):
         if isinstance(st, ast.Assign) and len(st.targets) == 1 and isinstance(
+                st.targets[0], ast.Name) and isinstance(
+                    st.value, (ast.Name, ast.Attribute)) and unparse(
+                        st.value) in ('resource.prlimit',
+                                      'resource.setrlimit'):
+            # the function itself bound to a local name: lambda *a: f(*a)
+            lam = ast.parse(f'lambda *a__: {unparse(st.value)}(*a__)',
+                            mode='eval').body
+            outer = _stmt_facts(lr, st)
+            cs = [(c, set()) for c in raw_limit_calls(lam.body)]
+            appliers.setdefault(st.targets[0].id, []).append(
+                ([], 'a__', cs, outer))
+        if isinstance(st, ast.Assign) and len(st.targets) == 1 and isinstance(
                 st.targets[0], ast.Name) and isinstance(st.value,
                                                         ast.Lambda):
             lam = st.value
